@@ -79,7 +79,7 @@ def gen_queries(rng, feats):
 
 
 def gen_cases(rng, tier):
-    n = 50 if tier == "quick" else 900
+    n = 160 if tier == "quick" else 2000
     cases = []
     for _ in range(n):
         feats = gen_db(rng)
